@@ -17,7 +17,52 @@ Variable ext : string -> list val -> val.
 Variable ext_st : string -> list val -> val -> val * val.
 
 
-(* TRANSLATION FAILED for ChannelHandle.send_content: expected ';', found '-' (at token 76) *)
-Definition gen_ChannelHandle_send_content : val := translation_failed.
+(* ---- /repo/src/io_loop/channel_handle.rs :: ChannelHandle.send_content ---- *)
+Fixpoint gen_ChannelHandle_send_content_loop1 (fuel : nat) (self_l : val) (class_id_l : val) (content_l : val) (properties_l : val) {struct fuel} : val * val :=
+match fuel with
+| O => (self_l, VStuck)
+| S fuel_ =>
+(if (v_ltb (v_field "frame_max" self_l) (v_len content_l)) then
+let '(self_7, v_8) := ext_st "handle.send_content_body" [(v_take (v_field "frame_max" self_l) content_l)] self_l in
+let tried_9 := v_8 in
+let after_12 := fun okval_10 : val =>
+let content_13 := (v_drop (v_field "frame_max" self_7) content_l) in
+(gen_ChannelHandle_send_content_loop1 fuel_ self_7 class_id_l content_13 properties_l) in
+match tried_9 with
+| VC "Err" [err_11] => (self_7, (VC "Err" [err_11]))
+| VC "Ok" [okval_10] => after_12 okval_10
+| VC "None" [] => (self_7, (VC "None" []))
+| VC "Some" [okval_10] => after_12 okval_10
+| _ => (self_7, VStuck)
+end
+else
+(if (negb (v_is_empty content_l)) then
+let '(self_14, v_15) := ext_st "handle.send_content_body" [content_l] self_l in
+let tried_16 := v_15 in
+let after_19 := fun okval_17 : val =>
+(self_14, (VC "Ok" [(VC "()" [])])) in
+match tried_16 with
+| VC "Err" [err_18] => (self_14, (VC "Err" [err_18]))
+| VC "Ok" [okval_17] => after_19 okval_17
+| VC "None" [] => (self_14, (VC "None" []))
+| VC "Some" [okval_17] => after_19 okval_17
+| _ => (self_14, VStuck)
+end
+else
+(self_l, (VC "Ok" [(VC "()" [])]))))
+end.
+
+Definition gen_ChannelHandle_send_content (fuel : nat) (self : val) (content : val) (class_id : val) (properties : val) : val * val :=
+let '(self_1, v_2) := ext_st "handle.send_content_header" [class_id; (v_len content); properties] self in
+let tried_3 := v_2 in
+let after_6 := fun okval_4 : val =>
+(gen_ChannelHandle_send_content_loop1 fuel self_1 class_id content properties) in
+match tried_3 with
+| VC "Err" [err_5] => (self_1, (VC "Err" [err_5]))
+| VC "Ok" [okval_4] => after_6 okval_4
+| VC "None" [] => (self_1, (VC "None" []))
+| VC "Some" [okval_4] => after_6 okval_4
+| _ => (self_1, VStuck)
+end.
 
 End Gen.
